@@ -99,7 +99,7 @@ def gen_c02(r):
     # The client refuses an incoming connection while four or more connected peers have nothing
     # it wants (MAX_NOT_INTERESTED), and a refused peer is not "reachable" in the sense of C02:
     # an essential peer connects in only when fewer than four other peers can be connected.
-    if any(p["incoming"] for p in peers[:honest]) and len(peers) - 1 > 3:
+    if any(p["incoming"] for p in peers[:honest]) and len(peers) - 1 > 2:  # (one more peer may be added by the C01 variant)
         for p in peers[:honest]:
             p["incoming"] = False
             p.pop("connect_delay_ms", None)
@@ -109,7 +109,7 @@ def gen_c02(r):
             p["host"] = "localhost"  # BEP3: "ip" may be a DNS name
         if r.random() < 0.3:
             p["id_hex"] = (b"-FK" + bytes(0x80 + r.randrange(0x40) for _ in range(17))).hex()  # ids are binary
-    if r.random() < 0.3 and not any(p["incoming"] for p in peers[:honest]) and len(peers) <= 3:
+    if r.random() < 0.3 and not any(p["incoming"] for p in peers[:honest]):
         # something connects in right at the start, never says a word and stays (it counts as a
         # connected peer the client is not interested in: see the admission rule above)
         peers.append(dict(port=7300, id="-FK0300-abcdefghijkl", incoming=True, have=[False] * n, seed=0, kind="mute", connect_delay_ms=r.choice([0, 50, 150]), hold_s=60))
